@@ -50,7 +50,7 @@ CHECKS["C11"] = dict(level="other", design="3/C11", technique="type facts on the
     note="Multi-limb value-level behaviour (C10), rounding direction of / for two free operands (C08) and chains longer than three operations are not decided; neg_inf narrowing lines are undecided (periodic conditions).")
 
 CHECKS["C13"] = dict(level="other", design="3/C13", technique="type facts on to_chars_capacity vs a decimal-length oracle; CFG dominance rule on byte stores, a path rule on value_too_large returns and who-may-call rules over -O1 -fno-inline LLVM IR; interval-set analysis over the buffer size of the real layout selection (to_chars_positive with fill cut to never-returning declarations) against the real solve_fixed/solve_scientific",
-    text="Capacity of the fixed-size variants is compared with the exact maximum decimal length for integers (8..128 bit) and integral scaled types; every byte store of the integer path and the scaled overload's sign is dominated by a failed comparison of the written pointer with `last`; every return of errc::value_too_large carries ptr == last; the digit-writing internals are called only from the to_chars family and the fixed-capacity entry points reach the buffer only through cnl::to_chars. Layout contract: along lines with the significand length and exponent pinned and the buffer size free (0..4096), the exit the real to_chars_positive takes (fill(scientific), fill(fixed), value_too_large, a failing CNL_ASSERT) is extracted from its IR and compared with what the real solvers return: fill is reached only with a layout it can carry out inside the buffer, value_too_large only when neither layout holds a digit, and with both possible the one with more digits then fewer characters.",
+    text="Capacity of the fixed-size variants is compared with the exact maximum decimal length for integers (8..128 bit, wide_integer digit counts up to 1000, elastic_integer digit counts) and integral scaled types; every byte store of the integer path and the scaled overload's sign is dominated by a failed comparison of the written pointer with `last`; every return of errc::value_too_large carries ptr == last; the digit-writing internals are called only from the to_chars family and the fixed-capacity entry points reach the buffer only through cnl::to_chars. Layout contract: along lines with the significand length and exponent pinned and the buffer size free (0..4096), the exit the real to_chars_positive takes (fill(scientific), fill(fixed), value_too_large, a failing CNL_ASSERT) is extracted from its IR and compared with what the real solvers return: fill is reached only with a layout it can carry out inside the buffer, value_too_large only when neither layout holds a digit, and with both possible the one with more digits then fewer characters.",
     note="fill's own copy loops and to_chars_static's digit loop are not analysed: fill's consumption is taken from its CNL_ASSERTs and unconditional writes, to_chars_static<10,int> is modelled by its specification (the decimal text of the exponent). The layout lines cover pinned (digits, exponent) pairs, every buffer size on each.")
 CHECKS["C14"] = dict(level="other", design="3/C14", technique="call-graph reachability, forbidden-callee and argument-derivation rules on -O1 -fno-inline LLVM IR of the fixed-capacity output entry points; template-argument rule on the descale instantiation each to_chars<Rep> calls; forbidden-callee rule below the digit generator; idle-cycle (progress) rule on the loops of descale",
     text="Decides the property's last sentence and one structural necessary condition of the sign/magnitude clause. Last sentence: to_string, to_chars_static and operator<< (scaled_integer, 128-bit integers) obtain their text from cnl::to_chars applied to the same value, pass the result's own character array as the buffer, compute the length from the returned pointer, and cannot reach any other number formatter. R5: in every cnl::to_chars<Rep,...> instance (19 reps incl. unsigned long long, 128-bit, elastic and wide) the working significand type passed to descale represents every value of Rep (digits and signedness). R6: no rounding (non-truncating) division is reachable from the digit generator to_chars_natural, for rounding_integer / static_integer / elastic / overflow wrappers. R7: every cycle of every loop of the 29 descale instantiations reached makes progress (idle-cycle rule on un-simplified SSA IR; a necessary condition for to_chars to return).",
@@ -61,7 +61,7 @@ CHECKS["C15"] = dict(level="other", design="3/C15", technique="IR equivalence of
     note="That EVERY token or constant<V> yields exactly its value / used-digit count is not decided: the scan/parse loops over characters are not analysed; the literal witnesses settle the sampled spellings only.")
 
 CHECKS["C18"] = dict(level="other", design="3/C18", technique="IR equivalence with the <bit> library functions on a frozen claimed set (both compiler configurations), UB-mode analysis of every utility (interval-set lines for pinned rotation counts, residual traps for free counts), scalar-evolution loop bounds",
-    text="For the intrinsic-backed widths (and every width of ispow2/rotl/rotr) the CNL utility and its <bit> counterpart reduce to one normal form for all values, on the Clang configuration and on the GCC configuration (intrinsic specialisations, where llvm.cttz/ctlz zero-poison flags expose an unguarded intrinsic); no utility keeps an out-of-range shift, an invalid builtin argument or a division for any value on any width.",
+    text="For the intrinsic-backed widths (and every width of ispow2/rotl/rotr) the CNL utility and its <bit> counterpart reduce to one normal form for all values, on the Clang configuration and on the GCC configuration (intrinsic specialisations, where llvm.cttz/ctlz zero-poison flags expose an unguarded intrinsic); no utility keeps an out-of-range shift, an invalid builtin argument or a division for any value on any width. Signedness dispatch: cnl::used_digits / leading_bits of a signed number type (built-in, 128-bit, wide incl. multi-limb, elastic, overflow, static) enter the signed used-digits algorithm, of an unsigned one the unsigned algorithm (13 types).",
     note="Generic recursive definitions on 8/16/128-bit types that LLVM does not bring to the intrinsic form are listed as unproved, not claimed; value correctness of used_digits/leading_bits/trailing_bits is not decided.")
 CHECKS["C19"] = dict(level="other", design="3/C19", technique="type facts and compile-fail witnesses; loop termination by scalar evolution or a shift ranking rule on the optimised IR; residual sanitizer traps",
     text="sqrt's result types (elastic digits (D+1)/2 with an integer-sqrt oracle, scaled exponent E/2, odd exponents rejected), termination of both loops for all 8..128-bit reps, and absence of out-of-range shifts.",
